@@ -624,7 +624,7 @@ impl Prop for RecurrenceGames {
         rec_case()
     }
     fn cases(&self, tier: Tier) -> u32 {
-        tier.pick(1_000, 40_000)
+        tier.pick(1_000, 12_000)
     }
     fn test(&self, c: &RecCase, st: &mut Stats) -> TestResult {
         let mut start = Pos::from_fen(&c.fen).map_err(Failure::new)?;
